@@ -45,7 +45,9 @@ def run(rep, tier, seed, replay=None):
         'of C12_engine for them',
         'the block sites (compute_block_layout / compute_inner / generate_item_list) are proved in Gallina on the hand models Model/Block.v '
         '(C12_block_resolutions_blind) and composed through the engine skeleton for trees of block containers and leaves '
-        '(C12_block_engine_instance: Model/BlockAlg.v + Model/BlockEngine.v, exact-key memo; absolute pass = parameter abs_child)',
+        '(C12_block_engine_instance: Model/BlockAlg.v + Model/BlockEngine.v, exact-key memo; absolute pass = parameter abs_child, premise '
+        'discharged for the REAL routine abs_child_block = translated kernel Gen/AbsPosGen.v + hand glue, Model/BlockAbs.v; root glue '
+        'Model/BlockRoot.v); that instance is tied to TaffyTree::compute_layout_with_measure bit for bit by `vh blocktree cases`',
         'translator/gen_boxsizing.py classifies uses by their method chain (syntactic); a length read through an alias or helper '
         'function would be reported as RawCopy and break the obligation rather than be missed',
         'theorems are over exact rationals (XQ) up to xeq; over binary32 `l + pb` is exact for the dyadic lengths the oracle uses',
@@ -71,6 +73,11 @@ def run(rep, tier, seed, replay=None):
                                              'cmd': 'vh c12 one %s %s' % (replay.get('seed', seed), replay['idx'])})
         rep.cov['samples'].append({'replayed': last[-1] if last else out[-300:]})
         return
+
+    # ---- whole-tree tie of the block engine instance the C12_block_engine_real_* / C12_block_layout_pass theorems are about
+    if not replay:
+        from . import _blocktree
+        _blocktree.tree_k(rep, 'C12', binp, (seed ^ 0xC12) & 0x7fffffff, 3000 if (tier != 'quick' or mine) else 300)
 
     # ---- K: leaf / root, content-box style and its rewrite
     n = 1200 if tier == "quick" else 20000
